@@ -15,11 +15,13 @@
 package annotation
 
 import (
+	"cmp"
 	"fmt"
 	"go/ast"
 	"go/token"
 	"go/types"
 	"regexp"
+	"slices"
 	"strings"
 
 	"go.uber.org/nilaway/config"
@@ -180,36 +182,39 @@ func (m *ObservedMap) Range(op func(key Key, isDeep bool, val bool)) {
 		}
 	}
 
-	for fld, val := range m.fieldAnnMap {
-		callOpOnKeyVal(&FieldAnnotationKey{FieldDecl: fld}, val)
+	// The annotation sites are visited in the order of their declarations (not in the iteration
+	// order of the maps), such that everything derived from this traversal, e.g., the order of the
+	// sites in the exported facts, is deterministic.
+	for _, fld := range sortedByPos(m.fieldAnnMap) {
+		callOpOnKeyVal(&FieldAnnotationKey{FieldDecl: fld}, m.fieldAnnMap[fld])
 	}
 
-	for fdecl, vals := range m.funcParamAnnMap {
-		for i, val := range vals {
+	for _, fdecl := range sortedByPos(m.funcParamAnnMap) {
+		for i, val := range m.funcParamAnnMap[fdecl] {
 			callOpOnKeyVal(ParamKeyFromArgNum(fdecl, i), val)
 		}
 	}
 
-	for fdecl, vals := range m.funcRetAnnMap {
-		for i, val := range vals {
+	for _, fdecl := range sortedByPos(m.funcRetAnnMap) {
+		for i, val := range m.funcRetAnnMap[fdecl] {
 			callOpOnKeyVal(RetKeyFromRetNum(fdecl, i), val)
 		}
 	}
 
-	for fdecl, val := range m.funcRecvAnnMap {
-		callOpOnKeyVal((&RecvAnnotationKey{FuncDecl: fdecl}), val)
+	for _, fdecl := range sortedByPos(m.funcRecvAnnMap) {
+		callOpOnKeyVal((&RecvAnnotationKey{FuncDecl: fdecl}), m.funcRecvAnnMap[fdecl])
 	}
 
-	for tdecl, val := range m.deepTypeAnnMap {
-		callOpOnKeyVal(&TypeNameAnnotationKey{TypeDecl: tdecl}, val)
+	for _, tdecl := range sortedByPos(m.deepTypeAnnMap) {
+		callOpOnKeyVal(&TypeNameAnnotationKey{TypeDecl: tdecl}, m.deepTypeAnnMap[tdecl])
 	}
 
-	for gvar, val := range m.globalVarsAnnMap {
-		callOpOnKeyVal(&GlobalVarAnnotationKey{VarDecl: gvar}, val)
+	for _, gvar := range sortedByPos(m.globalVarsAnnMap) {
+		callOpOnKeyVal(&GlobalVarAnnotationKey{VarDecl: gvar}, m.globalVarsAnnMap[gvar])
 	}
 
-	for callSite, vals := range m.funcCallSiteParamAnnMap {
-		for i, argLocAndVal := range vals {
+	for _, callSite := range sortedCallSites(m.funcCallSiteParamAnnMap) {
+		for i, argLocAndVal := range m.funcCallSiteParamAnnMap[callSite] {
 			// the location inside the callSite is the location of the call expression, we want
 			// the location of every argument expression
 			funcObj := callSite.Fun
@@ -217,11 +222,50 @@ func (m *ObservedMap) Range(op func(key Key, isDeep bool, val bool)) {
 		}
 	}
 
-	for callSite, vals := range m.funcCallSiteRetAnnMap {
-		for i, val := range vals {
+	for _, callSite := range sortedCallSites(m.funcCallSiteRetAnnMap) {
+		for i, val := range m.funcCallSiteRetAnnMap[callSite] {
 			callOpOnKeyVal(NewCallSiteRetKey(callSite.Fun, i, callSite.Location), val)
 		}
 	}
+}
+
+// sortedByPos returns the keys of the given map sorted by the positions of their declarations.
+func sortedByPos[K interface {
+	comparable
+	types.Object
+}, V any](m map[K]V) []K {
+	keys := make([]K, 0, len(m))
+	for k := range m {
+		keys = append(keys, k)
+	}
+	slices.SortFunc(keys, func(a, b K) int { return compareObjectPos(a, b) })
+	return keys
+}
+
+// compareObjectPos orders objects by the positions of their declarations.
+func compareObjectPos(a, b types.Object) int {
+	return cmp.Compare(a.Pos(), b.Pos())
+}
+
+// sortedCallSites returns the keys of the given map sorted by the locations of the call sites and
+// then by the positions of the declarations of the called functions.
+func sortedCallSites[V any](m map[CallSite]V) []CallSite {
+	keys := make([]CallSite, 0, len(m))
+	for k := range m {
+		keys = append(keys, k)
+	}
+	slices.SortFunc(keys, compareCallSites)
+	return keys
+}
+
+// compareCallSites orders call sites by their locations and then by the positions of the
+// declarations of the called functions.
+func compareCallSites(a, b CallSite) int {
+	return cmp.Or(
+		cmp.Compare(a.Location.Filename, b.Location.Filename),
+		cmp.Compare(a.Location.Offset, b.Location.Offset),
+		cmp.Compare(a.Fun.Pos(), b.Fun.Pos()),
+	)
 }
 
 const nilableKeyword = "nilable"
